@@ -101,11 +101,19 @@ type World struct {
 	chunks map[string][]byte
 	// handles that stay open across calls (HOpen / HWrite / HSync / HClose), by the model's handle id
 	handles map[string]afero.File
+	hinfo   map[string]*HInfo
+}
+
+// HInfo is what a driver needs to know about an open handle to choose expressible calls.
+type HInfo struct {
+	Path  []string
+	K     int
+	Dirty bool // the handle is in write mode (it truncated at open or has written)
 }
 
 func NewWorld(inst *sut.Instance, conc Concretisation) *World {
 	conc.Fill()
-	return &World{Inst: inst, FS: inst.FS, Conc: conc, chunks: map[string][]byte{}, handles: map[string]afero.File{}}
+	return &World{Inst: inst, FS: inst.FS, Conc: conc, chunks: map[string][]byte{}, handles: map[string]afero.File{}, hinfo: map[string]*HInfo{}}
 }
 
 func (w *World) Comp(c string) string {
@@ -259,13 +267,18 @@ func (w *World) Do(c Call) error {
 		_ = d.Close()
 		return err
 	case "HOpen":
+		before, berr := fs.Stat(p)
 		f, err := fs.OpenFile(p, openFlags(c.K), filePerm)
 		if err != nil {
 			return err
 		}
+		wr := c.K%4 == 1 || c.K%4 == 2
+		w.hinfo[c.Q[0]] = &HInfo{Path: append([]string{}, c.P...), K: c.K,
+			Dirty: wr && (c.K/16)%2 == 1 && berr == nil && !before.IsDir() && before.Size() > 0}
 		if info, serr := f.Stat(); serr == nil && info.IsDir() {
 			// handles on directories are not modelled (the specification answers EISDIR)
 			_ = f.Close()
+			delete(w.hinfo, c.Q[0])
 			return syscall.EISDIR
 		}
 		w.handles[c.Q[0]] = f
@@ -276,6 +289,9 @@ func (w *World) Do(c Call) error {
 			return fmt.Errorf("runner: handle %s is not open", c.Q[0])
 		}
 		_, err := f.Write(w.Chunk(c.C))
+		if err == nil {
+			w.hinfo[c.Q[0]].Dirty = true
+		}
 		return err
 	case "HSync":
 		f, ok := w.handles[c.Q[0]]
@@ -291,6 +307,7 @@ func (w *World) Do(c Call) error {
 		err := f.Close()
 		if err == nil {
 			delete(w.handles, c.Q[0])
+			delete(w.hinfo, c.Q[0])
 		}
 		return err
 	case "Initialize":
